@@ -246,7 +246,26 @@ def make_pool(rng, tier):
 
 def collision_pool(rng):
     """path-only pools whose members have equal Python hashes although they differ"""
-    kind = rng.choice(["neg_labels", "neg_labels", "big_size"])
+    kind = rng.choice(["neg_labels", "neg_labels", "big_size", "sizedict_order", "sizedict_order"])
+    if kind == "sizedict_order":
+        # the same network given with size_dicts that list the indices in different orders: as sequences of
+        # values the two dicts agree, as mappings they do not (seeded change S5_C13: key built from .values())
+        n = rng.choice([3, 4, 5])
+        labels = [gen.symbol(k) for k in range(n + 1)]
+        inputs = tuple((labels[k], labels[k + 1]) for k in range(n))
+        small, big = rng.choice([2, 3]), rng.choice([50, 100])
+        vals = [small if k % 2 == 0 else big for k in range(n + 1)]
+        s1 = dict(zip(labels, vals))
+        # swap neighbouring keys pairwise: the value sequence stays, every index changes its size
+        perm = []
+        for k in range(0, n + 1, 2):
+            perm += labels[k : k + 2][::-1]
+        s2 = dict(zip(perm, vals))
+        opt = rng.choice(["greedy", "optimal"])
+        return [
+            {"raw": {"inputs": inputs, "output": (labels[0], labels[n]), "size_dict": s}, "optimize": opt, "canonicalize": rng.random() < 0.7, "kwargs": {}, "tag": f"sizedict-order-{j}", "path_only": True}
+            for j, s in enumerate((s1, s2) if rng.random() < 0.5 else (s2, s1))
+        ]
     if kind == "neg_labels":
         # hash(-1) == hash(-2)
         a = ((-1, 5), (5, -2), (-2, 7), (7, 9))
